@@ -4,6 +4,7 @@ import JT.Model.Rtp
 import JT.Model.Miss
 import JT.Model.Parse
 import JT.Model.Location
+import JT.Model.Reply
 /-!
 Line-protocol driver: one operation per input line, one result line per operation.
 `<idx> <op> <args…>` ↦ `<idx> <result>`.
@@ -121,6 +122,18 @@ def showRes (r : Res String) : String :=
   | .err => "err"
   | .panic => "panic"
 
+/-- a conversation on one connection: reads are parsed, every delivered message goes to the writer in order -/
+def runConv : Nat → Parse.PState → Reply.Conn → List (Nat × Bytes) → List String → String
+  | _, _, c, [], acc => s!"[{",".intercalate acc.reverse}] next={c.serial}"
+  | now, st, c, (dt, data) :: r, acc =>
+    let now' := now + dt
+    let (st', msgs, _, err, pn) := Parse.parse now' st data
+    if pn then "panic" else
+    if err then s!"[{",".intercalate acc.reverse}] closed"
+    else
+      let (c', frames) := Reply.writtenFrames Gen.replyTable c msgs
+      runConv now' st' c' r ((frames.map toHex).reverse ++ acc)
+
 def runOp (op : String) (args : List String) : String :=
   match op, args with
   | "dec", [f] =>
@@ -140,6 +153,14 @@ def runOp (op : String) (args : List String) : String :=
       | "0704" => showRes (run0704 b)
       | "0801" => showRes (run0801 b)
       | _ => "bad-op"
+  | "convrace", [sess] =>
+    match parseSession sess with
+    | some cs => runConv 0 Parse.PState.empty Reply.Conn.init cs []
+    | none => "bad-op"
+  | "conv", [sess] =>
+    match parseSession sess with
+    | some cs => runConv 0 Parse.PState.empty Reply.Conn.init cs []
+    | none => "bad-op"
   | "psess", [sess] =>
     match parseSession sess with
     | some cs => runSession 0 Parse.PState.empty cs []
